@@ -232,6 +232,24 @@ fn table_tridiagonal(st: &mut Stats, rng: &mut Rng) {
     }
 }
 
+/// dot_f64 chooses its worker count from the CPUs the calling thread may use: the size check must hold for every count,
+/// the single-CPU case included
+fn table_dot_affinity(st: &mut Stats) {
+    let cpus = crate::mon::c16::allowed_cpus();
+    if cpus.is_empty() { st.count("skipped:affinity-unavailable"); return; }
+    for k in [1usize, 2, 3, cpus.len()] {
+        if k > cpus.len() { continue; }
+        if !crate::mon::c16::pin_to(&cpus[..k]) { st.count("skipped:affinity-not-effective"); continue; }
+        st.next_case();
+        for n1 in 0..=MAXS { for n2 in 0..=MAXS { if n1 != n2 {
+            let (a, b) = (Vector::<f64>::new(n1, 1.5), Vector::<f64>::new(n2, 2.0));
+            must_panic(st, "Vector:dot_f64", &|| format!("sizes {} and {} with {} usable CPU(s)", n1, n2, k), || a.dot_f64(&b));
+        } } }
+        st.count(&format!("dot_f64-mismatch-table:cpus-{}", k));
+    }
+    let _ = crate::mon::c16::pin_to(&cpus);
+}
+
 fn table_sparse(st: &mut Stats, rng: &mut Rng) {
     for r in 1..=4usize { for c in 1..=4usize {
         st.next_case();
@@ -252,13 +270,17 @@ fn table_sparse(st: &mut Stats, rng: &mut Rng) {
         // solver entry points: non-square, or b / x of the wrong size; x must stay untouched
         for kb in 0..=5usize { for kx in 0..=5usize {
             if r == c && kb == r && kx == r { continue; }
-            let b = Vector::<f64>::new(kb, 1.0);
-            let dd = || format!("{} b {} x {}", d(), kb, kx);
-            let sx = |v: &Vector<f64>| format!("{:?}", v.vec.iter().map(|x| x.to_bits()).collect::<Vec<_>>());
-            let mut x = Vector::<f64>::new(kx, 0.25); must_panic_mut(st, "Sparse:solve_cg", &dd, &mut x, sx, |x| s.solve_cg(&b, x, 10, 1e-8));
-            let mut x = Vector::<f64>::new(kx, 0.25); must_panic_mut(st, "Sparse:solve_bicg", &dd, &mut x, sx, |x| s.solve_bicg(&b, x, 10, 1e-8, 1));
-            let mut x = Vector::<f64>::new(kx, 0.25); must_panic_mut(st, "Sparse:solve_bicgstab", &dd, &mut x, sx, |x| s.solve_bicgstab(&b, x, 10, 1e-8));
-            let mut x = Vector::<f64>::new(kx, 0.25); must_panic_mut(st, "Sparse:solve_qmr", &dd, &mut x, sx, |x| s.solve_qmr(&b, x, 10, 1e-8));
+            // the rejection must not depend on the OTHER arguments: iteration budget 10 or 0, right-hand side and guess
+            // non-zero or zero (a zero residual, or no iteration at all, must not let a mis-shaped system through)
+            for (mi, bval, xval) in [(10usize, 1.0f64, 0.25f64), (0, 1.0, 0.25), (10, 0.0, 0.0), (0, 0.0, 0.0), (3, 0.0, 0.25)] {
+                let b = Vector::<f64>::new(kb, bval);
+                let dd = || format!("{} b {} x {} (max_iter {}, b entries {}, x entries {})", d(), kb, kx, mi, bval, xval);
+                let sx = |v: &Vector<f64>| format!("{:?}", v.vec.iter().map(|x| x.to_bits()).collect::<Vec<_>>());
+                let mut x = Vector::<f64>::new(kx, xval); must_panic_mut(st, "Sparse:solve_cg", &dd, &mut x, sx, |x| s.solve_cg(&b, x, mi, 1e-8));
+                let mut x = Vector::<f64>::new(kx, xval); must_panic_mut(st, "Sparse:solve_bicg", &dd, &mut x, sx, |x| s.solve_bicg(&b, x, mi, 1e-8, 1));
+                let mut x = Vector::<f64>::new(kx, xval); must_panic_mut(st, "Sparse:solve_bicgstab", &dd, &mut x, sx, |x| s.solve_bicgstab(&b, x, mi, 1e-8));
+                let mut x = Vector::<f64>::new(kx, xval); must_panic_mut(st, "Sparse:solve_qmr", &dd, &mut x, sx, |x| s.solve_qmr(&b, x, mi, 1e-8));
+            }
         } }
         if r == c { for itol in [0usize, 3, 7] { let b = Vector::<f64>::new(r, 1.0); let mut x = Vector::<f64>::new(r, 0.25); must_panic_mut(st, "Sparse:solve_bicg(itol)", &|| format!("{} itol {}", d(), itol), &mut x, |v| format!("{:?}", v.vec), |x| s.solve_bicg(&b, x, 10, 1e-8, itol)); } }
         st.nontrivial(hmix(hash_str("sparse"), (r * 10 + c) as u64));
@@ -577,7 +599,7 @@ pub fn run(ctx: &Ctx) -> Report {
         CONTENT.with(|c| c.set(mode));
         if mode > 0 { st.count(&format!("table-runs:content-mode-{}", mode)); }
         match u {
-            0 => table_vector(st, rng),
+            0 => { table_vector(st, rng); table_dot_affinity(st); }
             1 => table_banded(st, rng),
             2 => table_tridiagonal(st, rng),
             3 => table_sparse(st, rng),
